@@ -268,13 +268,10 @@ theorem normalize_marginalize_den (e c : Expr) (r : List Var) (h : e.normalizeMa
   unfold Expr.normalizeMarginalize at h
   rw [div_den _ _ _ h, marginalize_den]
 
-/-- the variables `conditional` normalises over, as the code collects them (`Probability.conditional` skips
-`Intervention` objects; `Expression.conditional` takes everything `_iter_variables` yields) -/
+/-- the variables `conditional` normalises over, as the code collects them (both overloads skip `Intervention`
+objects — the subscripts — since `fix:` a54a0f5; the ranges of inner `Sum`s are collected) -/
 def Expr.conditionalComplement (e : Expr) (ranges : List Var) : List Var :=
-  let vars : List Var := match e with
-    | .prob _ _ _ => e.iterVars.filter (fun (v : Var) => !v.isIv)
-    | _ => e.iterVars
-  diff' (dedup' (vars.map Var.base)) (upgradeOrdering (ranges.map Var.base))
+  diff' (dedup' ((e.iterVars.filter (fun (v : Var) => !v.isIv)).map Var.base)) (upgradeOrdering (ranges.map Var.base))
 
 /-- **what `e.conditional(ranges)` denotes** (C13 `conditional_den`, statement about the code as it is):
 `e / Σ_{collected ∖ ranges} e`. Whether the collected variables are the free event variables of `e` is the content
